@@ -75,6 +75,20 @@ Proof.
     + intro k. rewrite M3, N. cbn [qcol fold_right]. fold (qcol k vs). ring.
 Qed.
 
+Lemma vadd_total a b : length b = length a -> exists r, vadd a b = Ok r /\ length r = length a.
+Proof.
+  revert b; induction a as [|x a IH]; intros b H; destruct b as [|y b]; cbn [length] in H; try discriminate.
+  - exists []. split; reflexivity.
+  - destruct (IH b) as [r [E L]]; [congruence|]. exists (Qred (x + y) :: r). cbn [vadd]. rewrite E. cbn [bind length].
+    split; [reflexivity|congruence].
+Qed.
+Lemma vsum_total vs : forall acc, Forall (fun v => length v = length acc) vs -> exists s, vsum acc vs = Ok s.
+Proof.
+  induction vs as [|v vs IH]; intros acc H; cbn [vsum]; [eauto|]. inversion H as [|? ? Hv Hvs]; subst.
+  destruct (vadd_total acc v Hv) as [r [E L]]. rewrite E. cbn [bind]. apply IH.
+  eapply Forall_impl; [|exact Hvs]. cbn beta. intros w Hw. congruence.
+Qed.
+
 Lemma Forall2_impl' {A B} (R R' : A -> B -> Prop) l ys : (forall a b, R a b -> R' a b) -> Forall2 R l ys -> Forall2 R' l ys.
 Proof. intros H F. induction F; constructor; auto. Qed.
 
@@ -209,11 +223,14 @@ Proof.
   destruct sinc as [|[k v] r]; [discriminate|]. exists v. reflexivity.
 Qed.
 
-Lemma incon_transfer_total_l sinc src geo : wf src -> wf geo -> ~ atm_class src geo -> covers sinc src ->
+Definition uniform (sinc : incon) : Prop :=
+  exists n, forall k st, In (k, st) sinc -> length (bvar st) = n.
+
+Lemma incon_transfer_total_l sinc src geo : wf src -> wf geo -> covers sinc src -> uniform sinc ->
   exists new, incon_transfer nearest None sinc src geo = Ok new.
 Proof.
-  intros W W' NC C. unfold incon_transfer.
-  destruct (block_mapping_ok nearest Hn src geo W W' NC) as [m Hm]. rewrite Hm. cbn [bind fst snd].
+  intros W W' C [n U]. unfold incon_transfer.
+  destruct (block_mapping_ok nearest Hn src geo W W') as [m Hm]. rewrite Hm. cbn [bind fst snd].
   destruct (block_mapping_inv nearest Hn src geo m _ W W' Hm) as [_ [F G]].
   destruct (covers_first sinc src W C) as [st0 H0].
   assert (CA : forall b, In b (atm_blocks src) -> exists st, dget b sinc = Ok st).
@@ -224,7 +241,22 @@ Proof.
   { unfold atm_pairs. destruct (gatm geo) eqn:Eg.
     - destruct (gatm src) eqn:Es.
       + rewrite H0. cbn [bind]. eauto.
-      + exfalso. apply NC. split; congruence.
+      + rewrite H0. cbn [bind].
+        assert (L0 : length (bvar st0) = n).
+        { destruct sinc as [|[k v] r]; [discriminate|]. cbn [inc_first] in H0. inversion H0; subst v.
+          apply (U k st0). left; reflexivity. }
+        assert (T : forall col, In col (gcols src) -> exists y,
+                   (fun col => do b <- dget (block_name src (l0name src) (cname col)) sinc; Ok (bvar b)) col = Ok y).
+        { intros col Ic. cbn beta. destruct (CA (block_name src (l0name src) (cname col))) as [st Hst].
+          - unfold atm_blocks. rewrite Es. apply in_map_iff. exists col. split; [reflexivity|exact Ic].
+          - rewrite Hst. cbn [bind]. eauto. }
+        rewrite (mapM_total_fn _ [] _ T). cbn [bind].
+        match goal with |- exists a, bind (vsum ?acc ?vs) _ = _ => destruct (vsum_total vs acc) as [s Hs] end.
+        { rewrite map_length. apply Forall_forall. intros v Iv. apply in_map_iff in Iv as [col [Ev Ic]].
+          destruct (CA (block_name src (l0name src) (cname col))) as [st Hst].
+          - unfold atm_blocks. rewrite Es. apply in_map_iff. exists col. split; [reflexivity|exact Ic].
+          - rewrite Hst in Ev. cbn [bind unres] in Ev. subst v. rewrite L0. apply (U _ _ (dget_Ok_in _ _ _ Hst)). }
+        rewrite Hs. cbn [bind]. eauto.
       + eauto.
     - destruct (gatm src) eqn:Es.
       + apply (mapM_keyed_total (fun col => block_name geo (l0name geo) (cname col)) (fun _ => inc_first sinc)). intros; eauto.
@@ -239,7 +271,7 @@ Proof.
       + eauto.
     - eauto. }
   destruct A as [a Ha]. rewrite Ha. cbn [bind].
-  assert (U : exists u, ug_pairs sinc geo m = Ok u).
+  assert (U' : exists u, ug_pairs sinc geo m = Ok u).
   { unfold ug_pairs. rewrite (skipn_atm geo W').
     assert (T : forall b, In b (ug_blocks geo) -> exists v, (fun blk => do sb <- dget blk m; dget sb sinc) b = Ok v).
     { intros b Ib. cbn beta. destruct (G b) as [v [Hv Dv]].
@@ -253,12 +285,8 @@ Proof.
     destruct (mapM_keyed_total (fun x : str => x) _ _ T) as [ps Hps].
     exists ps. rewrite <- Hps. clear. induction (ug_blocks geo) as [|c l IH]; [reflexivity|]. cbn [mapM]. rewrite IH.
     destruct (dget c m); cbn [bind]; reflexivity. }
-  destruct U as [u Hu]. rewrite Hu. cbn [bind]. eauto.
+  destruct U' as [u Hu]. rewrite Hu. cbn [bind]. eauto.
 Qed.
-
-Lemma incon_transfer_raises sinc src geo : wf src -> wf geo -> atm_class src geo ->
-  incon_transfer nearest None sinc src geo = Raise KeyError.
-Proof. intros W W' C. unfold incon_transfer. rewrite (block_mapping_raises nearest Hn src geo W W' C). reflexivity. Qed.
 
 End Incon.
 
